@@ -433,6 +433,60 @@ fn random_base<B: Elem>(rng: &mut Rng) -> B {
     B::from_coords(&c)
 }
 
+/// one "msm" event: bases a_i * regs[s] (a_i < 16), scalars k_i; regs[d] := msm(bases, scalars) through a randomly chosen entry point
+fn record_msm<D: CurveDrv>(cfg: &str, seed: u64, step: usize, rng: &mut Rng, regs: &mut Vec<D::G>, d: usize, s: usize, r_mod: &BigUint, rep: &mut Report) -> Value {
+    use ark_ec::scalar_mul::variable_base::{verif_hooks, VariableBaseMSM};
+    use ark_ff::BigInteger;
+    let lens = [0usize, 1, 2, 3, 7, 31, 32, 33, 64, 100, 127, 128, 255, 256, 257, 500, 1000, 1025];
+    let len = *rng.pick(&lens[..]);
+    let one = BigUint::from(1u32);
+    let sbits = <D::S as PrimeField>::MODULUS_BIT_SIZE as u64;
+    // multiples 0..15 of the source point
+    let src = regs[s];
+    let mut mult: Vec<D::G> = vec![D::G::zero()];
+    for i in 1..16 { let prev = mult[i - 1]; mult.push(prev + src); }
+    let mult_aff = D::G::normalize_batch(&mult);
+    let style = rng.below(6);
+    let mut as_: Vec<u64> = Vec::with_capacity(len); let mut ks: Vec<BigUint> = Vec::with_capacity(len);
+    for i in 0..len {
+        as_.push(match style { 0 => 1, 1 => (i % 16) as u64, _ => rng.below(16) });
+        ks.push(match if style == 2 { 20 } else { rng.below(16) } {
+            0 => BigUint::from(0u32), 1 => one.clone(), 2 => r_mod - &one, 3 => r_mod - BigUint::from(rng.below(4) + 1),
+            4 => (&one << rng.below(sbits)) % r_mod, 5 => ((&one << rng.below(sbits)) - &one) % r_mod,   // window-boundary patterns: 2^j, 2^j - 1
+            6 => BigUint::from(rng.below(1 << 16)), 7 => (&one << (sbits - 1)) % r_mod,
+            20 => r_mod - &one,                                                                           // all scalars maximal
+            _ => rng.biguint_below(r_mod) });
+    }
+    let bases: Vec<<D::G as CurveGroup>::Affine> = as_.iter().map(|&a| mult_aff[a as usize]).collect();
+    let scalars: Vec<D::S> = ks.iter().map(|k| D::S::from_le_bytes_mod_order(&k.to_bytes_le())).collect();
+    let bigints: Vec<<D::S as PrimeField>::BigInt> = scalars.iter().map(|x| x.into_bigint()).collect();
+    let alg = *rng.pick(&["msm", "msm_unchecked", "msm_bigint", "msm_chunks", "hook_plain", "hook_signed"]);
+    let mut ev = json!({"op": "msm", "d": d + 1, "s": s + 1, "alg": alg, "len": len,
+                        "as": as_.iter().map(|&a| num_to_json(&BigUint::from(a), true)).collect::<Vec<_>>(),
+                        "ks": ks.iter().map(|k| num_to_json(k, true)).collect::<Vec<_>>()});
+    rep.op("msm");
+    intent(&json!({"machine": "curve", "cfg": cfg, "seed": seed, "step": step, "event": {"op": "msm", "alg": alg, "len": len}}));
+    let res = guarded(|| -> D::G {
+        match alg {
+            "msm" => <D::G as VariableBaseMSM>::msm(&bases, &scalars).expect("equal lengths"),
+            "msm_unchecked" => <D::G as VariableBaseMSM>::msm_unchecked(&bases, &scalars),
+            "msm_bigint" => <D::G as VariableBaseMSM>::msm_bigint(&bases, &bigints),
+            "msm_chunks" => <D::G as VariableBaseMSM>::msm_chunks(&bases.as_slice(), &scalars.as_slice()),
+            "hook_plain" => verif_hooks::msm_bigint_plain::<D::G>(&bases, &bigints),
+            _ => verif_hooks::msm_bigint_signed::<D::G>(&bases, &bigints),
+        }
+    });
+    rep.evaluations += 1;
+    match res {
+        Ok(g) => { regs[d] = g; if !g.is_zero() { rep.nontrivial.insert(format!("msm:{step}")); } }
+        Err(e) => { ev["panic"] = json!(e); }
+    }
+    let _ = BigInteger::is_zero(&bigints.get(0).cloned().unwrap_or_default());
+    ev["w"] = json!([[d + 1, D::raw(&regs[d])]]);
+    rep.sample(&json!({"op": "msm", "alg": alg, "len": len}));
+    ev
+}
+
 pub fn random_base_pub<B: Elem>(rng: &mut Rng) -> B { random_base::<B>(rng) }
 
 pub fn record<D: CurveDrv>(cfg: &str, seed: u64, n: usize, profile: &str, out: &mut dyn std::io::Write) -> Report {
@@ -468,7 +522,13 @@ pub fn record<D: CurveDrv>(cfg: &str, seed: u64, n: usize, profile: &str, out: &
         step += 1;
         let d = rng.below(K as u64) as usize;
         let s = rng.below(K as u64) as usize;
-        let c = rng.below(100 + mul_w + sub_w);
+        if profile == "msm" && step % 3 != 1 {
+            // full-size multi-scalar multiplication over known multiples of a register
+            let e = record_msm::<D>(cfg, seed, step, &mut rng, &mut regs, d, s, &r_mod, &mut rep);
+            writeln!(out, "{}", e).unwrap();
+            continue;
+        }
+        let c = if profile == "msm" { rng.below(16) } else { rng.below(100 + mul_w + sub_w) };
         let mut ev: Value = if c < 16 { json!({"op": "load", "d": d + 1}) }
             else if c < 36 { json!({"op": "add", "d": d + 1, "s": s + 1}) }
             else if c < 48 { json!({"op": "sub", "d": d + 1, "s": s + 1}) }
